@@ -129,8 +129,9 @@ CHECKS = {
                      "calc_checksum on 54 boundary (magic, arch, length) triples judged on 16-bit limbs; all 2^32 lengths x both architectures "
                      "(Multiboot2 magic; two more magics on a sub-grid) swept natively against the congruence the property states"),
     "C11": dict(thorough_extra=["hmut", "hsession", "repo"], corpora=["hfields", "hgetters", "hwalk"],
-                rule="every header-tag kind conformant x 2 fills x 2 positions x 2 architectures, every accessor; all tag sequences "
-                     "<= MaxTags over 4 kinds; all lazily chosen walks"),
+                rule="every header-tag kind conformant x 5 fills x 2 positions x 2 architectures, every accessor, and the tag viewed by "
+                     "position through every sized kind's struct (hview: every accessor of every same-size view, typ() of the others, "
+                     "the end tag, a position behind the walk); all tag sequences <= MaxTags over 4 kinds; all lazily chosen walks"),
     "C13": dict(corpora=["find", "findbytes"],
                 rule="structural buffers: all (buffer length, magic position or none, stored header length) combinations around the "
                      "8192 window, a later second magic, misaligned buffers"),
